@@ -88,9 +88,9 @@ def check_phi(rep, g, seed):
 
 def check_group(rep, g, seed):
     full = g in FULL
-    scns = ["slerp_formula", "slerp_0", "cubic_0", "smooth_0", "slerp_range", "cubic_range", "smooth_range"]
+    scns = ["slerp_formula", "slerp_0", "smooth_0", "slerp_range", "smooth_range"]
     if full:
-        scns += ["slerp_1", "cubic_1", "smooth_1", "slerp_left_equivariance"]
+        scns += ["cubic_0", "cubic_range", "slerp_1", "cubic_1", "smooth_1", "slerp_left_equivariance"]
     HARNESS.prefetch(g, scns)
     decl = [("x", "G"), ("y", "G"), ("a", "T"), ("b", "T")]
 
@@ -123,7 +123,8 @@ def check_group(rep, g, seed):
             rep.undecide("C15/%s/%s/paths" % (g, scn), "FEAS", "trace", "no non-throwing path")
 
     endpoint("slerp_0", "A")
-    endpoint("cubic_0", "A")
+    if full:
+        endpoint("cubic_0", "A")       # (the CUBIC blend is group independent; see the known finding)
     endpoint("smooth_0", "A")
     if full:
         endpoint("slerp_1", "B")
@@ -143,6 +144,8 @@ def check_group(rep, g, seed):
 
     # ---- parameter range
     for scn in ("slerp_range", "cubic_range", "smooth_range"):
+        if scn == "cubic_range" and not full:
+            continue
         for path in HARNESS.paths(g, scn):
             c = ctx_for(rep, "C15/%s/%s[%s]" % (g, scn, path.script), path, g, [("x", "G"), ("y", "G"), ("s", "M", 1)], seed=seed)
             z = smt.Z3Ctx(c.alg, 5000)
